@@ -631,11 +631,13 @@ DnsMessage::decodeNameWithLoopDetection(const std::uint8_t *data, std::size_t of
     name.append(reinterpret_cast<const char *>(data + offset + 1), length);
     offset += length + 1;
 
+    // totalLength counts one length octet per label, i.e. the presentation length plus one:
+    // the longest legal name (253 characters, 255 octets on the wire) reaches 254 here.
     totalLength += length + 1;
-    if (totalLength > constants::DNS_MAX_NAME_SIZE)
+    if (totalLength > constants::DNS_MAX_NAME_SIZE + 1)
     {
-      throw DnsParseException("Domain name too long: " + std::to_string(totalLength) + " (max " +
-                              std::to_string(constants::DNS_MAX_NAME_SIZE) + ")");
+      throw DnsParseException("Domain name too long: " + std::to_string(totalLength - 1) +
+                              " (max " + std::to_string(constants::DNS_MAX_NAME_SIZE) + ")");
     }
   }
 
